@@ -264,6 +264,11 @@ def py_len(I, v):
         return mk(I.read_seq(v)[1], 'int')
     if isinstance(v, SymVal) and v.k == 'str':
         return mk(z3.Length(v.t), 'int')
+    from .values import SymMat, SymRowRef
+    if isinstance(v, SymMat):
+        return mk(v.h, 'int')
+    if isinstance(v, SymRowRef):
+        return mk(v.mat.w, 'int')
     M = _interp_mod()
     if isinstance(v, M._DictView):
         return len(I.read_dict(v.d))
